@@ -20,7 +20,7 @@ EXPLANATION += (  # round-3 supplement
     ' M6 the element loop of script-side equality is dominated by a comparison of both lengths read under the held guards. M7 two mutexes held together are acquired in address order. M8 functions that own an element they are given drop it on every return path. M4 is decided by boolean path simulation over the index/len comparisons.'
 )
 EXPLANATION += (
-    ' M2 accepts a helper that only takes the two locks when every caller has proven the arguments distinct (Arc::ptr_eq) before the call; M6 follows guards handed out by a tuple-returning helper. M9 List.join is the std slice join applied to a snapshot (to_vec) and the separator parameter (or a hand-written loop whose separator decision depends only on the position). M10 no path of list equality returns true without passing the element comparison (no reflexivity shortcut for aliased handles: NaN).'
+    ' M2 accepts a helper that only takes the two locks when every caller has proven the arguments distinct (Arc::ptr_eq) before the call; M6 follows guards handed out by a tuple-returning helper. M9 List.join is the std slice join applied to a snapshot (to_vec) and the separator parameter (or a hand-written loop whose separator decision depends only on the position). M10 no path of list equality returns true without passing the element comparison (no reflexivity shortcut for aliased handles: NaN). M11 RawList::reserve has no early exit before `len + added` is computed, except for zero-sized elements.'
 )
 ASSUMPTIONS = [
     "std::sync::Mutex is not re-entrant; a second lock() on a held mutex in one thread deadlocks or panics",
@@ -607,6 +607,67 @@ def rule_m10(F):
     return r
 
 
+def rule_m11(F):
+    """Growing: `reserve(added)` returns with room for `len + added` elements - `extend` (concat, `+`) relies on it for a whole
+    operand, `push` for one.  Every way out of RawList::reserve that does not go through the computation of `len + added` is the
+    zero-sized-element case; a shortcut that looks only at `len < capacity` is right for push and lets concat write past the
+    allocation."""
+    from .c08 import deps
+    r = RuleResult("C15.M11", "RawList::reserve: no early exit before the required capacity (len + added) was computed, except for zero-sized elements", floor=1)
+    ps = [p for p in F.paths() if p.endswith("RawList::reserve") or p.endswith("RawList::<T>::reserve")]
+    if not ps:
+        r.missing("RawList::reserve")
+        return r
+    b = F.body(ps[0])
+    defs = mir.Defs(b)
+    argc = b.mir["argc"]
+    added = "arg%d" % argc
+    uses_added = {bi for bi, t in mir.calls(b) if any(mir.is_place_op(a) and any(x.split(".")[0] == added for x in deps(b, defs, a[1][0])) for a in t["args"])}
+    for bi, blk in enumerate(b.blocks):
+        for st in blk["stmts"]:
+            if st["k"] == "assign" and st["rv"]["k"] in ("bin", "checked") and any(mir.is_place_op(o) and any(x.split(".")[0] == added for x in deps(b, defs, o[1][0])) for o in (st["rv"].get("a"), st["rv"].get("b")) if o is not None):
+                uses_added.add(bi)
+    if not uses_added:
+        r.missing("the use of the `added` parameter in RawList::reserve")
+        return r
+    region = mir.reachable_from(b, 0, stop=uses_added) - uses_added
+    rets = [x for x in region if b.blocks[x]["term"]["k"] == "return"]
+    sizes = {bi for bi, t in mir.calls(b) if hir.last(mir.callee(t) or mir.callee_def(t) or "") in ("size", "size_of", "is_zst")}
+    early = []
+    for si in sorted(region):
+        tt = b.blocks[si]["term"]
+        if tt["k"] != "switch":
+            continue
+        leads = [x for x in mir.succs(b.blocks[si]) if x in region and any(y in rets for y in (mir.reachable_from(b, x, stop=uses_added) | {x}))]
+        if not leads:
+            continue
+        l = mir.op_local(tt["o"])
+
+        def derives_from_size(x, depth=0):
+            """through whole-local definitions only (field stores into `self` do not count)"""
+            if depth > 6:
+                return False
+            for d in defs.whole_defs(x):
+                if d[2] == "call":
+                    if d[0] in sizes:
+                        return True
+                elif d[2] == "assign":
+                    rv = d[3]["rv"]
+                    for o in (rv.get("o"), rv.get("a"), rv.get("b")):
+                        if mir.is_place_op(o) and len(o[1]) == 1 and derives_from_size(o[1][0], depth + 1):
+                            return True
+            return False
+        from_size = l is not None and derives_from_size(l)
+        early.append((tt.get("line") or b.line, from_size))
+    r.inst("early exits of reserve", {"exits_before_added_is_used": len(rets), "deciding_tests": [{"line": ln, "tests_the_element_size": fs} for ln, fs in early]})
+    for ln, fs in early:
+        if not fs:
+            r.bad(b.path, "early exit that ignores `added`", relfile(b.file), ln,
+                  "RawList::reserve can return before the required capacity `len + added` is computed, on a test that does not look at the element size: for `added > 1` (extend / concat) the "
+                  "elements of the second operand are written past the end of the allocation")
+    return r
+
+
 def rules(ctx):
     F = ctx["F"]
     bodies = _scope(F)
@@ -621,7 +682,7 @@ def rules(ctx):
                    "value::list::ErasedList::concat"):
         if not F.has(anchor):
             m1.missing(anchor)
-    return [m1, m2, rule_m4(F), rule_m5(F), rule_m6(F), m7, rule_m8(F), rule_m9(F), rule_m10(F)]
+    return [m1, m2, rule_m4(F), rule_m5(F), rule_m6(F), m7, rule_m8(F), rule_m9(F), rule_m10(F), rule_m11(F)]
 
 
 def canary(C):
